@@ -284,9 +284,11 @@ structure PlanDay where
 def planDay (c : MethodCfg) (inp : Inputs) (n m : Nat) (me : MethSt) (lt : Nat → Int) : PlanDay :=
   match c.role with
   | .followUp =>
-    let keys := (FollowUp.planned (c.crews * c.cap) (withTag me.sh lt)).map (·.site)
-    let reqs := keys.map (mkReq c inp n m me.rep)
-    { issued := [], keys := keys, reqs := reqs, dd := deploy c inp n reqs }
+    let plans := FollowUp.planned (c.crews * c.cap) (withTag me.sh lt)
+    -- the report belongs to the planner object: a plan whose follow-up survey was never started has
+    -- a fresh one, whatever an earlier (duplicate, F13) request for the same site left behind
+    let reqs := plans.map (fun pl => mkReq c inp n m (fun i => if pl.inProg then me.rep i else {}) pl.site)
+    { issued := [], keys := plans.map (·.site), reqs := reqs, dd := deploy c inp n reqs }
   | _ =>
     let sc := schedCfg c
     let date := inp.date n
